@@ -19,7 +19,7 @@ def _h(*xs):
 
 class Hints:
     """seeded assignment of small rationals to Real symbols; spec = [(regex, kind)] with kind in
-    {'any','pos','unit', ('range', lo, hi), ('fixed', v)}"""
+    {'any','pos','unit', ('range', lo, hi), ('fixed', v), ('alt', [kind per round])}"""
     def __init__(self, seed=0, spec=()):
         self.seed = seed; self.spec = [(re.compile(r), k) for r, k in spec]
 
@@ -28,6 +28,8 @@ class Hints:
         if name.startswith("U["): kind = "unit"
         for r, k in self.spec:
             if r.search(name): kind = k; break
+        if isinstance(kind, tuple) and kind[0] == "alt":        # a different kind per round (round r uses kind[1][r mod len])
+            kind = kind[1][rnd % len(kind[1])]
         h = _h(name, self.seed, rnd)
         if kind == "any": return POOL[h % len(POOL)]
         if kind == "pos": return POOL_POS[h % len(POOL_POS)]
